@@ -29,6 +29,33 @@ def obname(o, c, i):
     return uvari(o) + bytes([c]) + ident(i)
 
 
+VSINGL_KBITS = [None]          # 23 or 24: the reading of the VSINGL fraction the implementation follows (probed by the caller)
+
+
+def vsingl_probe():
+    """which of the two readings of RepCodes!DecVsingl the implementation follows, from one pattern (C07 judges all patterns)"""
+    if VSINGL_KBITS[0] is None:
+        from TotalDepth.RP66V1.core import RepCode, File
+        got = RepCode.VSINGL(File.LogicalData(b'\x0c\x44\x00\x80'))
+        VSINGL_KBITS[0] = 24 if got == 140.5 else 23       # 153.0 under the reading of the RP66V2 test vectors
+    return VSINGL_KBITS[0]
+
+
+def enc_vsingl(v):
+    """the VSINGL bytes of a dyadic value under the probed reading: v = +-(1/2 + F / 2^kbits) * 2^(E - 128), 0 <= F < 2^(kbits - 1)"""
+    import math
+    kbits = vsingl_probe()
+    if v == 0:
+        return bytes(4)
+    m, x = math.frexp(abs(v))                   # m in [1/2, 1)
+    F = (m - 0.5) * (1 << kbits)
+    assert F == int(F) and 0 <= F < (1 << 23) and 1 <= x + 128 <= 255, v
+    F, E = int(F), x + 128
+    b1 = (0x80 if v < 0 else 0) | (E >> 1)
+    b0 = ((E & 1) << 7) | (F >> 16)
+    return bytes([b0, b1, F & 0xff, (F >> 8) & 0xff])
+
+
 def enc_value(rc, v):
     """encode one value under a representation code; v is a python value"""
     if rc == 2:
@@ -37,6 +64,8 @@ def enc_value(rc, v):
         return struct.pack('>d', v)
     if rc == 5:
         return v                      # raw 4 bytes (IBM)
+    if rc == 6:
+        return enc_vsingl(v)
     if rc == 12:
         return struct.pack('>b', v)
     if rc == 13:
